@@ -41,6 +41,8 @@ def sum_interaction_terms(
         raise ValueError("Argument 'dim' must be a negative integer.")
 
     covars = to_dense(covars)
+    if max_degree is None:
+        max_degree = covars.size(dim)
     ks = torch.arange(max_degree, dtype=covars.dtype, device=covars.device)
     neg_one = torch.tensor(-1.0, dtype=covars.dtype, device=covars.device)
 
